@@ -228,7 +228,7 @@ RULE_EXTRA = {
     "C08": "Also: second logon on the same connection (previous interval equal / smaller / larger); transient message-store failure on the k-th save (k <= 4).",
     "C09": "Also: second logon on the same connection; inbound retransmissions (PossDupFlag=Y); silence after a pending or completed logout must end in the disconnect event.",
     "C10": "Also: expected inbound number produced by real inbound histories (arrivals in every receiving state, three kinds of logout) followed by a second Logon with number expected+{0,1,3}.",
-    "C11": "Also: family (iv) framing fields in every order with impossible values.",
+    "C11": "Also: family (iii) CheckSum field not last; family (iv) framing fields in every order with impossible values; family (v) every field and every group count of every template (13 message types), one at a time, with each of 29 odd values (empty, lone sign, one byte, over-long digits, half a timestamp, non-ASCII), as a top-level field, inside the first and inside the second entry of its group(s).",
     "C12": "Also: regeneration over an earlier, longer generation; every type re-spelled consistently in schema and mapping; one Generator object executed twice through the library API.",
     "C14": "Also: Logout+Logon event; schedule part with a stalled writer (4-slot queue, 8 requests, delay bound 1/2).",
     "C15": "Also: endings that begin while the session's own TestRequest is outstanding; Stop with a full outgoing queue.",
